@@ -174,7 +174,7 @@ C("C16", "TestC16", P(3000), P(8000, 16, 2400), pkg="conc", flavour="inst",
   assumptions=["no I/O faults other than process kills", SCHED],
   exhaustive_part="thorough tier: the C04 pre-emption enumerations re-run with the M16 monitor")
 
-C("C06", "TestC06", P(120), P(600, 16, 2400), pkg="conc", flavour="inst", level="fault_enumeration",
+C("C06", "TestC06", P(400), P(1500, 16, 3000), pkg="conc", flavour="inst", level="fault_enumeration",
   rule="rapid-generated (initial stack of 0..6 transactions incl. tombstones and logs, one target operation from {Add, multi-table Addition, abandoned Addition, CompactAll, CompactAll with expiry, AutoCompact, Clean, Close}, auto-compaction on/off, optionally a surviving second process with 1..3 operations); "
        "the operation is first run uncrashed to count its n filesystem calls and to obtain the states before/after (decoded from disk by specdec); then for EVERY k in 0..n-1 the identical initial state is rebuilt and the process is killed in front of call k; "
        "oracle: the committed state at the kill is exactly before or exactly after; a fresh NewStack opens and reads it (M5 after every step, M4 for every later transition, M10 for the survivor); survivor writes fail only with ErrLockFailure; "
